@@ -28,6 +28,8 @@ func C14(c *core.Ctx) {
 	c14Panics(c)
 	c14KeyedErrors(c)
 	c14EnvelopeMembers(c)
+	c14Pow(c)
+	c14NilElems(c)
 }
 
 // nilSafeReceiver decides whether every dereference of the receiver in a
